@@ -176,7 +176,7 @@ func (tx *Tx) SMoveByOneBucket(bucket string, key1, key2, item []byte) (bool, er
 	}
 
 	if set, ok := tx.db.SetIdx[bucket]; ok {
-		return set.SMove(string(key1), string(key2), item)
+		return tx.sMove(set, bucket, key1, set, bucket, key2, item)
 	}
 
 	return false, ErrBucket
@@ -201,6 +201,14 @@ func (tx *Tx) SMoveByTwoBuckets(bucket1 string, key1 []byte, bucket2 string, key
 		return false, ErrBucketAndKey(bucket2, key1)
 	}
 
+	return tx.sMove(set1, bucket1, key1, set2, bucket2, key2, item)
+}
+
+// sMove moves item from the set key1 of set1 to the set key2 of set2 as part
+// of the transaction: the removal and the addition are logged like SRem and
+// SAdd, so they take effect at commit, are undone by a rollback and survive a
+// restart. It reports false when item is not a member of the source set.
+func (tx *Tx) sMove(set1 *set.Set, bucket1 string, key1 []byte, set2 *set.Set, bucket2 string, key2, item []byte) (bool, error) {
 	if !set1.SHasKey(string(key1)) {
 		return false, ErrNotFoundKeyInBucket(bucket1, key1)
 	}
@@ -209,11 +217,17 @@ func (tx *Tx) SMoveByTwoBuckets(bucket1 string, key1 []byte, bucket2 string, key
 		return false, ErrNotFoundKeyInBucket(bucket2, key2)
 	}
 
-	if _, ok := set2.M[string(key2)][string(item)]; !ok {
-		set2.SAdd(string(key2), item)
+	if !set1.SIsMember(string(key1), item) {
+		return false, nil
 	}
 
-	set1.SRem(string(key1), item)
+	if err := tx.sPut(bucket1, key1, DataDeleteFlag, item); err != nil {
+		return false, err
+	}
+
+	if err := tx.sPut(bucket2, key2, DataSetFlag, item); err != nil {
+		return false, err
+	}
 
 	return true, nil
 }
